@@ -115,6 +115,18 @@ class Check:
                 self.stats.setdefault("axioms", {})[th] = res
             else:
                 self.proof_problems.append(f"theorem {th} not checked ({res})")
+        if self.tier == "thorough" and ps["ok"] and not b["failed"] and os.environ.get("DATASHARD_VERIF_COQCHK", "1") != "0":
+            # independent re-check of the compiled development (coqchk), thorough tier only (~1 min)
+            ck = coqbuild.coqchk(self.pid)
+            self.stats["coqchk"] = {"ok": ck["ok"], "wall_s": round(ck["wall_s"], 1), **ck["summary"]}
+            self.checker_extra = f" && coqchk -silent -o DS.Props.{self.pid}"
+            if not ck["ok"]:
+                self.proof_problems.append("coqchk rejected the compiled development: " + _last_error(ck["log"]))
+            else:
+                for k in ("type_in_type", "unsafe_fix", "assumed_positivity"):
+                    if ck["summary"].get(k):
+                        self.proof_problems.append(f"coqchk reports {k}: {ck['summary'][k]}")
+                self.stats["coqchk_axioms"] = ck["summary"].get("axioms")
         return not self.proof_problems
 
     def allow_axioms(self, allowed: List[str]) -> None:
@@ -123,6 +135,11 @@ class Check:
             bad = [a for a in axs if a not in allowed]
             if bad:
                 self.proof_problems.append(f"theorem {th} depends on undeclared axioms {bad}")
+        ck = self.stats.get("coqchk_axioms")
+        if isinstance(ck, list):
+            bad = [a for a in ck if not any(a.split()[0].split(".")[-1] == x.split(".")[-1] for x in allowed)]
+            if bad:
+                self.proof_problems.append(f"coqchk: the compiled development depends on undeclared axioms {bad}")
         if allowed:
             self.trusted_base.append("standard-library axioms: " + ", ".join(allowed))
 
@@ -222,7 +239,7 @@ class Check:
         cov: Dict[str, Any] = {
             "obligations": max(1, len(self.obligations)) if level == "proof" else len(self.obligations),
             "discharged": len(self.discharged),
-            "checker_cmd": f"make -C coq (coq_makefile, full .vo) && coqc Props/{self.pid}.v  [Print Assumptions parsed]",
+            "checker_cmd": f"make -C coq (coq_makefile, full .vo) && coqc Props/{self.pid}.v  [Print Assumptions parsed]" + getattr(self, "checker_extra", ""),
             "trusted_base": self.trusted_base,
             "theorems": self.obligations,
             "print_assumptions": self.assumptions_printed,
